@@ -4,6 +4,7 @@
 //!
 //! `fbharness --layout`: print the layout arithmetic of the crate's waker block.
 
+mod bombs;
 mod child;
 mod galloc;
 mod probe;
@@ -163,8 +164,13 @@ fn main() {
         print_layout();
         return;
     }
+    if args.len() == 3 && args[1] == "--bombs" {
+        // scenarios with panicking destructors (their own oracle, see bombs.rs)
+        let ok = bombs::run_all(&args[2]);
+        std::process::exit(if ok { 0 } else { 1 });
+    }
     if args.len() != 3 {
-        eprintln!("usage: fbharness <history-file> <trace-file>\n       fbharness --layout");
+        eprintln!("usage: fbharness <history-file> <trace-file>\n       fbharness --layout\n       fbharness --bombs <out-file>");
         std::process::exit(2);
     }
     let input = match std::fs::read_to_string(&args[1]) {
